@@ -360,7 +360,7 @@ def check(ctx):
             include(ctx, name)
     mod = sys.modules[__name__]
     C = "sweetpea/_internal/constraint.py"
-    control(ctx, mod, "Sustain forgets to store the counter", lambda s: variants.in_function(s, C, "Sustain.apply", "        backend_request.fresh = new_fresh\n", "        pass\n"), "C01.fresh")
+    control(ctx, mod, "Sustain forgets to store the counter", lambda s: variants.in_function(s, C, "Sustain.apply", "        backend_request.fresh = new_fresh", "        pass"), "C01.fresh")
     control(ctx, mod, "Cross passes the stale counter", lambda s: variants.in_function(s, C, "Cross.apply", "block.cnf_fn(And(iffs), fresh)", "block.cnf_fn(And(iffs), backend_request.fresh)"), "C01.fresh")
     control(ctx, mod, "Cross advances by the wrong amount", lambda s: variants.in_function(s, C, "Cross.apply", "            fresh += num_state_vars\n", "            fresh += len(crossing_trials)\n"), "C01.fresh")
     control(ctx, mod, "ExactlyK builds a request without adding it",
